@@ -93,20 +93,34 @@ def check_response(text, data, dom, lexemes, legend, lexer_rejects, impl_tokens=
         # implementation's own tokenizer (whose positions C05 checks); the class is not compared
         if impl_tokens is None:
             return None
-        bypos = {}
-        for t in impl_tokens:
-            tb = bytes.fromhex(t[5])
-            if t[0] in ("Whitespace", "Newline") or not tb:
-                continue
-            tx = tb.decode("utf-8", "replace")
-            bypos[(t[3], t[4])] = (t[0], {len(tb), len(tx), len(tx.encode("utf-16-le")) // 2})
-        for d in dec:
-            le = bypos.get((d[0], d[1]))
-            if le is None:
-                return "decoded range line %d start %d length %d does not start at a lexeme of the document" % (d[0], d[1], d[2])
-            if d[2] not in le[1]:
-                return "decoded range at %d:%d has length %d, the %s lexeme there has %s" % (d[0], d[1], d[2], le[0], sorted(le[1]))
-        return None
+        # positions and lengths must be counted in one and the same unit: bytes, characters or UTF-16 units
+        tb_all = text.encode("utf-8")
+        fails = {}
+        for unit in ("bytes", "chars", "utf16"):
+            def measure(bs):
+                x = bs.decode("utf-8", "replace")
+                return len(bs) if unit == "bytes" else len(x) if unit == "chars" else len(x.encode("utf-16-le")) // 2
+            bypos = {}
+            for t in impl_tokens:
+                tb = bytes.fromhex(t[5])
+                if t[0] in ("Whitespace", "Newline") or not tb:
+                    continue
+                ls = tb_all.rfind(b"\n", 0, t[1]) + 1
+                bypos[(t[3], measure(tb_all[ls:t[1]]))] = (t[0], measure(tb))
+            why = None
+            for d in dec:
+                le = bypos.get((d[0], d[1]))
+                if le is None:
+                    why = "decoded range line %d start %d length %d does not start at a lexeme of the document" % (d[0], d[1], d[2])
+                    break
+                if d[2] != le[1]:
+                    why = "decoded range at %d:%d has length %d, the %s lexeme there has %d" % (d[0], d[1], d[2], le[0], le[1])
+                    break
+            if why is None:
+                return None
+            fails[unit] = why
+        return "no unit of position fits the ranges: counted in bytes, %s; in characters, %s; in UTF-16 units, %s" % (
+            fails["bytes"], fails["chars"], fails["utf16"])
     # every decoded range is exactly one lexeme with an acceptable class, in order; every must-lexeme appears
     bypos = {}
     for k, l, c, n, allowed, must in lexemes:
